@@ -383,6 +383,10 @@ def cmd_check(pid, tier):
         f"tree under test: {REPO} @ {tree_id()}",
         f"hypothesis seeds {seed * 1000}..{seed * 1000 + shards - 1}, {n_examples} examples per shard, {shards} shard(s)",
     ]
+    missing = [c for c in getattr(mod, "REQUIRED_CLASSES", []) if not total.classes.get(c)]
+    if missing and not failures:
+        print(f"HARNESS-ERROR property={pid}: generator vacuity - classes never produced: {missing}")
+        return 2
     if len(total.nontrivial) < 2 and not failures:
         print(f"HARNESS-ERROR property={pid}: fewer than 2 non-trivial cases were generated")
         return 2
